@@ -22,7 +22,7 @@ import math
 import re
 from fractions import Fraction
 
-from ..core import WholeFloats, Sub, fail, lit, close
+from ..core import Siblings, WholeFloats, Sub, fail, lit, close
 
 V = [-3, -1, 0, 1, 2, 2.5, 4]
 AZ = 'abcdefghijklmnopqrstuvwxyz'
@@ -939,5 +939,23 @@ class AggWholeFloats(WholeFloats):
     ]
 
 
+NEEDS_ZYGOTE = True
+
+
+class StatSiblings(Siblings):
+    name = 'c11.siblings'
+    GROUPS = [
+        (['SUM({0})', 'PRODUCT({0})', 'AVERAGE({0})', 'MIN({0})', 'MAX({0})', 'COUNT({0})', 'MEDIAN({0})', 'MODE({0})',
+          'VAR({0})', 'VARP({0})', 'VAR.S({0})', 'VAR.P({0})', 'STDEV({0})', 'STDEVP({0})', 'STDEV.S({0})', 'STDEV.P({0})',
+          'AVEDEV({0})', 'GEOMEAN({0})', 'HARMEAN({0})', 'LARGE({0},1)', 'LARGE({0},2)', 'SLOPE({0},{{1,2,3,4}})',
+          'SLOPE({{1,2,3,4}},{0})'],
+         [('={3,1,4,1}',), ('={2,7,1,8}',), ('={5,5,2,9}',), ('={1,2,3,4}',), ('={4,3,2,1}',), ('={1.5,2.5,2.5,0.5}',)]),
+        (['SUMIF({0},{1})', 'COUNTIF({0},{1})', 'AVERAGEIF({0},{1})', 'SUMIFS({0},{0},{1})', 'AVERAGEIFS({0},{0},{1})',
+          'MAXIFS({0},{0},{1})', 'SUMIF({0},{1},{{10,20,30,40}})', 'AVERAGEIF({0},{1},{{10,20,30,40}})'],
+         [('={3,1,4,1}', '>1'), ('={3,1,4,1}', 1), ('={3,1,4,1}', '<>1'), ('={3,1,4,1}', '>9'), ('={"ab","b","abc","a"}', 'a*'),
+          ('={"ab","b","abc","a"}', '?'), ('={3,1,4,1}', '<=3')]),
+    ]
+
+
 SUBS = [Definitions(), Regrouping(), Large(), LongLists(), Slope(), CriteriaNumeric(), CriteriaText(),
-        ErrorItems(), AggWholeFloats()]
+        ErrorItems(), AggWholeFloats(), StatSiblings()]
